@@ -1150,6 +1150,8 @@ func (e *env) checkLedger(res *result) {
 				res.cov = append(res.cov, "overlap.sloppy-other")
 			} else if e.overlap {
 				res.fail("overlap-release-wipes-successor", "AllocatedForPeer = %d while %d reserved bytes are unsent: a ReleasePeerMemory of a queue of this peer removed reservations another holder still had, and their later release took %d bytes of somebody else's", got, held, held-got)
+			} else if e.exited.Load() {
+				res.fail("dead-queue-over-release", "AllocatedForPeer = %d while %d reserved bytes are held by callers of the exited queue: a caller whose granted reservation was removed by the queue's own ReleasePeerMemory released it later and took %d bytes another caller had reserved since", got, held, held-got)
 			} else {
 				res.fail("ledger", "AllocatedForPeer = %d is less than the unsent reserved data, %d bytes, with a single queue", got, held)
 			}
